@@ -237,7 +237,7 @@ impl<AnyLoader: Loader> Context<AnyLoader> {
         };
         // Note: Should a "full stack" of bases be used here?
         // Or is this fine?
-        let url = relative(&from, url);
+        let url = normalize(&relative(&from, url));
         if let Some((path, mut file)) = self.do_find_file(&url, names)? {
             let is_module = !from.is_import();
             let source = from.url(&path);
@@ -302,6 +302,23 @@ impl<AnyLoader: Loader> Context<AnyLoader> {
     pub fn unlock_loading(&mut self, file: &SourceFile) {
         self.loading.remove(file.path());
     }
+}
+
+/// Remove `.` segments and resolve `name/..` segments of a url, so
+/// different spellings of the same url get the same name (which is
+/// what the loop detection and the module cache compare).
+fn normalize(url: &str) -> String {
+    let mut parts: Vec<&str> = Vec::new();
+    for part in url.split('/') {
+        match part {
+            "." => (),
+            ".." if parts.last().is_some_and(|p| *p != ".." && !p.is_empty()) => {
+                parts.pop();
+            }
+            part => parts.push(part),
+        }
+    }
+    parts.join("/")
 }
 
 /// Make a url relative to a given base.
